@@ -137,6 +137,8 @@ class OpRunner(object):
             opts += ['emptystring']
         if isdirlike:
             opts += ['slash1', 'slash2', 'slash3', 'relslash']
+        if exists and os.path.isdir(pb) and not os.path.islink(pb):
+            opts += ['selfupdown']      # 'd/../d': the parent is named through the entry itself (gone once the entry has moved)
         sp = spelling or self.rnd.choice(opts)
         if sp not in opts:
             sp = 'abs'          # a trailing-slash spelling was asked for something that is not directory-like
@@ -152,6 +154,9 @@ class OpRunner(object):
             return b'../' + os.path.basename(parent) + b'/' + name, os.fsdecode(parent), sp
         if sp == 'dblslash':
             return parent + b'//' + name, self.neutral_cwd(), sp
+        if sp == 'selfupdown':
+            return (pb + b'/../' + name) if self.rnd.random() < 0.5 else (name + b'/../' + name), \
+                (self.neutral_cwd() if False else os.fsdecode(parent)), sp
         if sp == 'viaparentlink':
             ln = os.path.join(w.root, 'targets', 'pl-%s-%s' % (a['r'], a['d']))
             os.makedirs(os.path.dirname(ln), exist_ok=True)
